@@ -10,7 +10,7 @@ from mc.proc_driver import replay as _replay
 META = {
     "kind": "graph",
     "engine": "E2 BFS to fixpoint over tick histories of the real ProcessManager.start() on a fake OS",
-    "rule": "for every (workers in 1..3, max_fails in {-1,0,1,2,3}) all tick histories over the alphabet {subset of workers dies} x {none, SIGHUP, SIGINT, SIGTERM, file change} x {subset of restarted workers crash at start} (+ bounded deviations) are explored breadth-first with de-duplication on the canonical state until no new state appears (fixpoint); in addition every history of 6 (quick) / 8 (thorough) ticks over the 5-letter alphabet {nothing, SIGHUP, file change, worker 0 dies, SIGINT} is run without state matching (guard against state the canonical form cannot see). Oracle C18 (reference monitor = a counter of dequeued failure-origin restarts + per-tick restart set): start() returns -1 exactly when the number of handled failure restarts reaches max_fails>=1 and never otherwise; a handled reload-all restarts every slot exactly once in that tick and leaves the counter alone; on SIGINT/SIGTERM every live current worker gets exactly one SIGINT, no dead/reaped or foreign pid is signalled, no start follows and the status is None; start() never raises. distinct_nontrivial = distinct (configuration, exit, facts) outcomes. Further configurations with WorkerArgs options the manager reads (wait_tasks_timeout 0 / 2.0 with shutdown_timeout, max_tasks_per_child) and workers that exit on their own with status 0.",
+    "rule": "for every (workers in 1..3, max_fails in {-1,0,1,2,3}) all tick histories over the alphabet {subset of workers dies} x {none, SIGHUP, SIGINT, SIGTERM, file change} x {subset of restarted workers crash at start} (+ bounded deviations) are explored breadth-first with de-duplication on the canonical state until no new state appears (fixpoint); in addition every history of 6 (quick) / 8 (thorough) ticks over the 5-letter alphabet {nothing, SIGHUP, file change, worker 0 dies, SIGINT} is run without state matching (guard against state the canonical form cannot see). Oracle C18 (reference monitor = a counter of dequeued failure-origin restarts + per-tick restart set): start() returns -1 exactly when the number of handled failure restarts reaches max_fails>=1 and never otherwise; a handled reload-all restarts every slot exactly once in that tick and leaves the counter alone; on SIGINT/SIGTERM every live current worker gets exactly one SIGINT, no dead/reaped or foreign pid is signalled, no start follows and the status is None; start() never raises. distinct_nontrivial = distinct (configuration, exit, facts) outcomes. Further configurations with WorkerArgs options the manager reads (wait_tasks_timeout 0 / 2.0 with shutdown_timeout, max_tasks_per_child) and workers that exit on their own with status 0. A handled ReloadAllAction obliges a restart of every slot not yet restarted in that tick by the end of the next tick, whatever the manager queues internally; a supervision loop that never reaches sleep() is a violation.",
     "assumptions": [
         "fake multiprocessing.Process/Queue/Event, os.kill, signal.signal, sleep stand for the OS (Linux semantics: kill on a reaped pid raises ProcessLookupError, on a zombie succeeds; is_alive()/join() reap)",
         "per tick: any subset of workers dies, at most one signal/file event, any subset of restarted workers crashes before its start-up wait; deviations (signal between drain and scan, Queue.empty() lag) bounded per history",
